@@ -352,6 +352,8 @@ def named_kwargs(case, **over):
         kw["lorch"] = flag_value(lorch, form)
     if omitted or case.get("pass_flags"):
         kw["OmittedXrangeCorrection"] = flag_value(omitted, form)
+    if case.get("foreign_kw"):      # the caller forwards its whole settings dictionary: keys that are not the transform's business change nothing
+        kw.update({"LorchFlag": True, "RealSpaceFunction": "G(r)", "Rdelta": 0.5, "NumberDensity": 1.0, "Rmax": 25.0})
     # the window keywords of the core transform, given to the named transform
     if over.get("xmin", case.get("xmin")) is not None:
         kw["xmin"] = over.get("xmin", case.get("xmin"))
